@@ -122,6 +122,36 @@ def run(ctx):
     if len(chk) != 1:
         r.violate("split_utf8_start|guard", "the fast path no longer checks for a pending streaming decoder", su.loc())
 
+    # ------------------------------------------------------------------ R13.7
+    r = ctx.rule("R13.7", "the first <meta> that declares a usable charset decides: the built-in handler marks `found` only under Some(charset) (and never hands the flag to a call such as mem::replace), and it is registered before the user's element handlers, so it reads the attributes as they are in the input", "E-MIR control dependence / operand order", floor=2)
+    cl = [f for f in mir.fns if f.key == "rewriter::handler_adjust_charset_on_meta_tag::{closure#0}"]
+    if len(cl) != 1:
+        raise EngineError("R13.7: the <meta charset> handler closure was not found")
+    hc = cl[0]
+    wr = []
+    refs = 0
+    for bi, b in enumerate(hc.blocks):
+        for st in b["stmts"]:
+            if st["k"] == "assign" and hc.describe_place(st["p"]).endswith(".found") :
+                wr.append((bi, hc.deep(st["rv"]["o"]) if st["rv"]["k"] == "use" else st["rv"]["k"]))
+            if st["k"] == "assign" and st["rv"]["k"] in ("ref", "rawptr") and st["rv"].get("mut") and hc.describe_place(st["rv"]["p"]).endswith(".found"):
+                refs += 1
+    sets = [(bi, v) for bi, v in wr if v.startswith("const true")]
+    r.inst("meta-handler|found-set-under-some-charset", sample={"writes": [v for _, v in wr], "mutable_borrows_of_found": refs})
+    ok = len(sets) == 1 and refs == 0
+    if ok:
+        gs = [hc.deep(hc.blocks[sb]["term"]["d"]) for sb in guarding_branches(hc, sets[0][0])]
+        ok = any(g.startswith("discr(") and ("or_else" in g or "AsciiCompatibleEncoding" in g or "charset" in g) for g in gs)
+        setc = [bi for bi, t in hc.calls(r"OnceLock.*::set$")]
+        ok = ok and bool(setc) and all(hc.dominates(sets[0][0], c) or hc.dominates(c, sets[0][0]) for c in setc)
+    if not ok:
+        r.violate("meta-handler|found-set-under-some-charset", "the <meta> handler marks the encoding as decided somewhere else than under `Some(charset)`: a <meta name=viewport> (or an unusable charset label) before the real declaration would make the declaration be ignored", hc.loc())
+    fs = mir.fn("HtmlRewriteController::from_settings")
+    ch = [(fs.deep(t["args"][0]), fs.deep(t["args"][1])) for bi, t in fs.calls(r"Iterator::chain$|::chain$")]
+    r.inst("from_settings|meta-handler-first", sample={"chain": [(a[:60], b[:60]) for a, b in ch]})
+    if len(ch) != 1 or "charset_adjust_handler" not in ch[0][0] or "element_content_handlers" not in ch[0][1]:
+        r.violate("from_settings|meta-handler-first", f"the built-in <meta charset> handler is not registered before the user's element handlers ({ch}): a user handler that rewrites the charset/content attribute would change the encoding the rest of the document is decoded with", fs.loc())
+
     # ------------------------------------------------------------------ R13.6 (see _r136_post below)
     r = ctx.rule("R13.6", "document bytes are taken as UTF-8 only when the document encoding is UTF-8: every str::from_utf8 / String::from_utf8* on non-test paths is dominated by a test `encoding == UTF_8`, or sits in a reviewed function whose input is not document bytes", "E-MIR dominance", floor=4)
     REVIEWED_UTF8 = {
